@@ -14,6 +14,12 @@ from typing import Any
 from .. import e2e, gens
 from ..common import Hang, Rng, hx, unhx, watchdog
 from ..runner import Check
+from . import c07_discr_obs as _discr_obs
+
+# the pass-through wrapper around Parser.__apply_discriminator_type must be in place BEFORE the first generate() of the
+# process: CPython 3.12.1 keeps calling the function it saw first at that (name-mangled) call site when the class
+# attribute is replaced later (observed; the wrapper records only while c07_discr observes a run)
+_discr_obs._install()
 from ..translate import enum_sites
 from ..translate import unicode as uni
 
